@@ -40,6 +40,27 @@ Theorem C14_gc_shortcuts_refuted :
 Proof. exact gc_shortcuts_refuted. Qed.
 Print Assumptions C14_gc_shortcuts_refuted.
 
+(* THE LEAF ITERATOR under the cyclic collector: PyTreeIter owns its root, the objects pending on its
+   agenda and its is_leaf predicate; its tp_traverse (gc.cpp, after fix F18) reports every one of them
+   in every state of the iteration — fresh, advanced, exhausted — so a cycle through an iterator
+   (treespec -> key object -> iterator -> predicate or tree -> treespec) is collectable. The traversal
+   without the predicate (the code before the fix) is complete exactly for iterators created without an
+   is_leaf function; a traversal that reports nothing once the iterator is exhausted misses the root. *)
+Theorem C14_iterator_gc_complete : forall s, iter_visited IGcAll s = iter_owned s.
+Proof. exact iter_gc_complete. Qed.
+Print Assumptions C14_iterator_gc_complete.
+
+Theorem C14_iterator_gc_without_predicate :
+  forall s, iter_visited IGcNoPredicate s = iter_owned s <-> it_has_pred s = false.
+Proof. exact iter_gc_no_predicate_complete_iff. Qed.
+Print Assumptions C14_iterator_gc_without_predicate.
+
+Theorem C14_iterator_gc_variants_refuted :
+  (exists s, iter_visited IGcNoPredicate s <> iter_owned s) /\
+  (exists s, it_agenda s = [] /\ iter_visited IGcSkipExhausted s <> iter_owned s).
+Proof. exact iter_gc_variants_refuted. Qed.
+Print Assumptions C14_iterator_gc_variants_refuted.
+
 Example C14_example :
   let h := {| cells := [(0%nat, [KInt 3; KInt 1; KInt 2])]; next := 1%nat |} in
   exists h1 s, flatten_dict true h 0%nat = Some (h1, s) /\
